@@ -62,10 +62,11 @@ Fixpoint mismatches_from (i : nat) (cs : list exp_case) : list (nat * list nat) 
 (* classifiers and theorem hypotheses, per table of the case, in this order:
    0 known_C17_clash   1 known_C16_fk_cycle   2 known_C18_datetime   3 known_C18_slice_order
    4 fk_closed (hypothesis of refs_exist)   5 known_C17_py_ident   6 known_C17_py_dup
-   7 known_C17_py_empty_import   8 known_C17_py_text *)
+   7 known_C17_py_empty_import   8 known_C17_py_text   9 known_C17_py_sqlmodel_text *)
 Definition classify_table (s : schema) (t : table_def) : list bool :=
   [known_C17_clash s t; known_C16_fk_cycle s t; known_C18_datetime t; known_C18_slice_order s t;
-   fk_closed s; known_C17_py_ident t; known_C17_py_dup t; known_C17_py_empty_import t; known_C17_py_text t].
+   fk_closed s; known_C17_py_ident t; known_C17_py_dup t; known_C17_py_empty_import t; known_C17_py_text t;
+   known_C17_py_sqlmodel_text t].
 Definition classify_case (c : exp_case) : list (list bool) := map (classify_table (x_schema c)) (x_schema c).
 
 (* ---------- K-disp ---------- *)
